@@ -19,7 +19,10 @@ import Mathlib.Tactic.Linarith
 -/
 namespace Dashu.Model
 
-theorem thrS : Dashu.Gen.mul_THRESHOLD_SIMPLE = 24 := rfl
+/-- side conditions on the regenerated schoolbook threshold (the proofs below keep it symbolic, so a
+    different valid value needs no change here) -/
+theorem thrS_pos : 1 ≤ Dashu.Gen.mul_THRESHOLD_SIMPLE := by decide
+theorem thrS_le : Dashu.Gen.mul_THRESHOLD_SIMPLE ≤ 192 := by decide
 theorem thrK : Dashu.Gen.mul_THRESHOLD_KARATSUBA = 192 := rfl
 
 -- ------------------------------------------------------------------ ceil_log2
@@ -89,8 +92,10 @@ theorem mu3_step (n : Nat) (h : 193 ≤ n) : mu3 ((n + 2) / 3 + 1) + 1 ≤ mu3 n
   omega
 
 theorem memBound_le_kreq (m : Nat) (h : m ≤ 192) : memBound m ≤ karatsubaMemReq m := by
+  have hS1 := thrS_pos
+  have hS2 := thrS_le
   unfold memBound
-  rw [thrS, thrK]
+  rw [thrK]
   split
   · omega
   · first
@@ -104,11 +109,13 @@ theorem kreq_le_400 (m : Nat) (h : m ≤ 192) : karatsubaMemReq m ≤ 2 * m + 16
   omega
 
 /-- Karatsuba level: both recursive sizes fit -/
-theorem memBound_kara (n : Nat) (h1 : 24 < n) (h2 : n ≤ 192) :
+theorem memBound_kara (n : Nat) (h1 : Dashu.Gen.mul_THRESHOLD_SIMPLE < n) (h2 : n ≤ 192) :
     2 * ((n + 1) / 2) + memBound ((n + 1) / 2) ≤ memBound n ∧
     2 * (n - (n + 1) / 2) + memBound (n - (n + 1) / 2) ≤ memBound n := by
+  have hS1 := thrS_pos
+  have hS2 := thrS_le
   have hn : memBound n = karatsubaMemReq n := by
-    unfold memBound; rw [thrS, thrK, if_neg (by omega), if_pos h2]
+    unfold memBound; rw [thrK, if_neg (by omega), if_pos h2]
   have b1 := memBound_le_kreq ((n + 1) / 2) (by omega)
   have b2 := memBound_le_kreq (n - (n + 1) / 2) (by omega)
   have r := karatsubaMemReq_rec n (by omega)
@@ -119,8 +126,10 @@ theorem memBound_kara (n : Nat) (h1 : 24 < n) (h2 : n ≤ 192) :
 /-- Toom-3 level: the persistent `8·(n3+1)` words plus what any of the recursive sizes needs fit -/
 theorem memBound_toom (n : Nat) (h : 192 < n) (m : Nat) (hm : m ≤ (n + 2) / 3 + 1) :
     8 * ((n + 2) / 3 + 1) + memBound m ≤ memBound n := by
+  have hS1 := thrS_pos
+  have hS2 := thrS_le
   have hn : memBound n = 4 * n + 20 * (mu3 n - 2) := by
-    unfold memBound; rw [thrS, thrK, if_neg (by omega), if_neg (by omega)]
+    unfold memBound; rw [thrK, if_neg (by omega), if_neg (by omega)]
   have h6 := mu3_ge n (by omega)
   have hst := mu3_step n (by omega)
   rw [hn]
@@ -131,7 +140,7 @@ theorem memBound_toom (n : Nat) (h : 192 < n) (m : Nat) (hm : m ≤ (n + 2) / 3 
     · omega
     · omega
   · have hmb : memBound m = 4 * m + 20 * (mu3 m - 2) := by
-      unfold memBound; rw [thrS, thrK, if_neg (by omega), if_neg hm192]
+      unfold memBound; rw [thrK, if_neg (by omega), if_neg hm192]
     have hmono := mu3_mono hm
     rw [hmb]
     omega
@@ -175,8 +184,10 @@ theorem memBound_le_req (n : Nat) : memBound n ≤ mulMemReq n := by
       omega
 
 theorem mulMemReq_mono {a b : Nat} (h : a ≤ b) : mulMemReq a ≤ mulMemReq b := by
+  have hS1 := thrS_pos
+  have hS2 := thrS_le
   unfold mulMemReq
-  rw [thrS, thrK]
+  rw [thrK]
   have hk := karatsubaMemReq_mono h
   have ht := toom3MemReq_mono h
   have hkt : karatsubaMemReq a ≤ toom3MemReq a := by
@@ -230,13 +241,15 @@ theorem memToom3_ok (rec : MemKernel) (S : Nat → Nat)
 
 /-- `mul::add_signed_mul_same_len` never runs out of scratch memory when given `memBound n` words -/
 theorem memSameLen_ok : ∀ (fuel n avail : Nat), memBound n ≤ avail → memSameLen fuel n avail = .ok () := by
+  have hS1 := thrS_pos
+  have hS2 := thrS_le
   intro fuel
   induction fuel with
   | zero => intro n avail _; rfl
   | succ fuel ih =>
     intro n avail h
     simp only [memSameLen]
-    rw [thrS, thrK]
+    rw [thrK]
     split
     · rfl
     · rename_i h1
@@ -253,8 +266,10 @@ theorem memSameLen_ok : ∀ (fuel n avail : Nat), memBound n ≤ avail → memSa
 
 /-- the same-length kernels called per chunk by `karatsuba::add_signed_mul` / `toom_3::add_signed_mul` -/
 theorem memChunkKernel_ok (b avail : Nat) (h : mulMemReq b ≤ avail) :
-    (24 < b → b ≤ 192 → memKaratsuba (memSameLen b) b avail = .ok ()) ∧
+    (Dashu.Gen.mul_THRESHOLD_SIMPLE < b → b ≤ 192 → memKaratsuba (memSameLen b) b avail = .ok ()) ∧
     (192 < b → memToom3 (memSameLen b) b avail = .ok ()) := by
+  have hS1 := thrS_pos
+  have hS2 := thrS_le
   have hb := memBound_le_req b
   constructor
   · intro h1 h2
@@ -292,6 +307,8 @@ theorem memSplitLoop_ok (chunkLen : Nat) (f : Nat → Except PanicKind Unit)
     operand -/
 theorem memAddSignedMul_ok : ∀ (fuel a0 b0 avail : Nat), mulMemReq (min a0 b0) ≤ avail →
     memAddSignedMul fuel a0 b0 avail = .ok () := by
+  have hS1 := thrS_pos
+  have hS2 := thrS_le
   intro fuel
   induction fuel with
   | zero => intro _ _ _ _; rfl
@@ -300,7 +317,7 @@ theorem memAddSignedMul_ok : ∀ (fuel a0 b0 avail : Nat), mulMemReq (min a0 b0)
     have hmin : (if a0 < b0 then a0 else b0) = min a0 b0 := by
       split <;> omega
     simp only [memAddSignedMul]
-    rw [hmin, thrS, thrK]
+    rw [hmin, thrK]
     generalize (if a0 < b0 then b0 else a0) = a
     have htail : ∀ x y, min x y ≤ min a0 b0 → memAddSignedMul fuel x y avail = .ok () := by
       intro x y hxy
